@@ -73,19 +73,40 @@ func configFuncFieldsRule(r *Run, pkg, owner string) {
 	}
 	sort.Strings(fields)
 	for _, field := range fields {
-		okAll, why := true, ""
-		for _, in := range instrsWhereOne(cd, isReturn) {
-			ret := in.(*ssa.Return)
-			v := retOperand(ret, 0)
+		// retOK: is the field non-nil in the value v that fn hands on at instruction in (a return, or a call that passes
+		// it through)?  fnOK: on every return of fn.  A helper of the package that the value goes through is either
+		// sufficient by itself (all its returns carry a non-nil field whatever it was handed) or hands its argument back,
+		// in which case the question moves to the argument at the call.
+		var retOK func(fn *ssa.Function, in ssa.Instruction, v ssa.Value, depth int) (bool, string)
+		fnOK := func(fn *ssa.Function, depth int) (bool, string) {
+			for _, in := range instrsWhereOne(fn, isReturn) {
+				if ok, why := retOK(fn, in, retOperand(in.(*ssa.Return), 0), depth); !ok {
+					return false, why
+				}
+			}
+			return true, ""
+		}
+		retOK = func(fn *ssa.Function, in ssa.Instruction, v ssa.Value, depth int) (bool, string) {
+			if call, ok := v.(*ssa.Call); ok {
+				g := call.Call.StaticCallee()
+				if depth < 3 && g != nil && g.Pkg == cd.Pkg && len(g.Blocks) > 0 && g != fn {
+					if ok, _ := fnOK(g, depth+1); ok {
+						return true, ""
+					}
+					if arg := passedThrough(call, cd.Pkg, field); arg != nil {
+						return retOK(fn, call, arg, depth+1)
+					}
+				}
+				return false, fn.Name() + " returns a value the rule cannot follow"
+			}
 			ld, isLoad := v.(*ssa.UnOp)
 			if !isLoad || ld.Op != token.MUL {
-				okAll, why = false, "configDefault returns a value the rule cannot follow"
-				continue
+				return false, fn.Name() + " returns a value the rule cannot follow"
 			}
 			switch src := ld.X.(type) {
 			case *ssa.Global:
 				if !inDefault[field] {
-					okAll, why = false, "the path that returns "+src.Name()+" itself ("+r.pos(in)+") — the package default leaves it nil"
+					return false, "the path that returns " + src.Name() + " itself (" + r.pos(in) + ") — the package default leaves it nil"
 				}
 			case *ssa.Alloc:
 				// From every point where the field's value becomes unknown (function entry, a whole-struct assignment from
@@ -169,15 +190,15 @@ func configFuncFieldsRule(r *Run, pkg, owner string) {
 					return false
 				}
 				cut := map[edge]bool{}
-				for _, br := range branchesInOne(cd) {
+				for _, br := range branchesInOne(fn) {
 					if constIsNil(br.Info.Const) && loadOfField(br.Info.Root, field) {
 						if sl, ok := br.nilSlot(false); ok {
 							cut[edge{br.If.Block(), sl}] = true
 						}
 					}
 				}
-				starts := []point{entryOf(cd)}
-				for _, x := range instrsWhereOne(cd, func(x ssa.Instruction) bool {
+				starts := []point{entryOf(fn)}
+				for _, x := range instrsWhereOne(fn, func(x ssa.Instruction) bool {
 					st, ok := x.(*ssa.Store)
 					return ok && st.Addr == ssa.Value(src) && !isSet(x)
 				}) {
@@ -185,18 +206,99 @@ func configFuncFieldsRule(r *Run, pkg, owner string) {
 				}
 				for _, sp := range starts {
 					if _, hit := reach(sp, func(x ssa.Instruction) bool { return x == in }, cut, isSet); hit != nil {
-						okAll, why = false, "a path through configDefault ("+r.pos(in)+") neither sets it nor finds it non-nil"
+						return false, "a path through " + fn.Name() + " (" + r.pos(in) + ") neither sets it nor finds it non-nil"
 					}
 				}
 			default:
-				okAll, why = false, "configDefault returns a value the rule cannot follow"
+				return false, fn.Name() + " returns a value the rule cannot follow"
 			}
+			return true, ""
 		}
+		okAll, why := fnOK(cd, 0)
 		short := field[strings.LastIndex(field, ".")+1:]
 		r.check(okAll, pkg+":config-function:"+short, called[field], "called without a nil test; non-nil on every path out of configDefault",
 			fmt.Sprintf("Config.%s is called by the middleware without a nil test (%s) but can leave configDefault nil: %s — every request through a middleware built that way dereferences a nil function in the request goroutine", short, called[field], why))
 	}
 	_ = types.Typ
+}
+
+// passedThrough: call is a static call of a function of pkg that returns one of its (struct-valued) parameters as it
+// was handed in, except for fields it sets — and field, if set at all, is set to something that is not nil.  Answers
+// the argument at that position, nil when the callee is anything else.
+func passedThrough(call *ssa.Call, pkg *ssa.Package, field string) ssa.Value {
+	g := call.Call.StaticCallee()
+	if g == nil || g.Pkg != pkg || len(g.Blocks) == 0 || call.Call.IsInvoke() {
+		return nil
+	}
+	idx := -1
+	for _, in := range instrsWhereOne(g, isReturn) {
+		rv := stripValue(retOperand(in.(*ssa.Return), 0))
+		var p ssa.Value
+		switch x := rv.(type) {
+		case *ssa.Parameter:
+			p = x
+		case *ssa.UnOp:
+			cell, ok := x.X.(*ssa.Alloc)
+			if !ok || x.Op != token.MUL {
+				return nil
+			}
+			for _, ref := range *cell.Referrers() {
+				switch y := ref.(type) {
+				case *ssa.Store:
+					if y.Addr != ssa.Value(cell) {
+						return nil // the cell's address escapes into memory
+					}
+					if pp, ok := y.Val.(*ssa.Parameter); ok && (p == nil || p == ssa.Value(pp)) {
+						p = pp
+					} else {
+						return nil
+					}
+				case *ssa.FieldAddr:
+					fv := fieldVar(y.X.Type(), y.Field)
+					for _, fr := range *y.Referrers() {
+						st, isStore := fr.(*ssa.Store)
+						if !isStore || st.Addr != ssa.Value(y) {
+							if _, isLoad := fr.(*ssa.UnOp); isLoad {
+								continue
+							}
+							if _, isDbg := fr.(*ssa.DebugRef); isDbg {
+								continue
+							}
+							if fv != nil && fieldOwner(fv)+"."+fv.Name() != field {
+								continue // another field handed on by address
+							}
+							return nil
+						}
+						if fv != nil && fieldOwner(fv)+"."+fv.Name() == field && constIsNil(asConst(st.Val)) {
+							return nil
+						}
+					}
+				case *ssa.UnOp, *ssa.DebugRef:
+				default:
+					return nil
+				}
+			}
+		default:
+			return nil
+		}
+		if p == nil {
+			return nil
+		}
+		found := -1
+		for i, gp := range g.Params {
+			if ssa.Value(gp) == p {
+				found = i
+			}
+		}
+		if found < 0 || (idx >= 0 && idx != found) {
+			return nil
+		}
+		idx = found
+	}
+	if idx < 0 || idx >= len(call.Call.Args) {
+		return nil
+	}
+	return call.Call.Args[idx]
 }
 
 // sharesBackingWith: may the slice v share its backing array with a value satisfying isRoot?  Follows the
